@@ -92,6 +92,10 @@ func vSymRequest(maxVals int) (*http.Request, map[string][]string) {
 	hv["Upgrade"] = vSymValues("upgrade", maxVals)
 	hv["Sec-Websocket-Version"] = vSymValues("version", 1)
 	hv["Sec-Websocket-Key"] = vSymValues("key", 2)
+	if vParam("symKey", 1) == 0 {
+		// a concrete, valid key: no uninterpreted base64 on the path, so every counterexample replays natively
+		hv["Sec-Websocket-Key"] = []string{"dGhlIHNhbXBsZSBub25jZQ=="}
+	}
 	for k, v := range hv {
 		vSetHeader(r.Header, k, v)
 	}
@@ -147,6 +151,9 @@ func verifC11_accept() {
 	} else {
 		r = &http.Request{Method: "GET", ProtoMajor: 1, ProtoMinor: 1, Header: http.Header{}, Host: vString("host")}
 		hv = map[string][]string{"Connection": {"keep-alive, Upgrade"}, "Upgrade": {"websocket"}, "Sec-Websocket-Version": {"13"}, "Sec-Websocket-Key": {vString("key")}}
+		if vParam("symKey", 1) == 0 {
+			hv["Sec-Websocket-Key"] = []string{"dGhlIHNhbXBsZSBub25jZQ=="}
+		}
 		if vChoose("breakRequest", 3) == 1 {
 			r.Method = "POST" // one representative invalid request: the error path of accept
 		}
